@@ -50,6 +50,7 @@ package inprocgrpc
 //@ func (*Channel).Invoke
 //@   ensures[C02,C01] a_response_that_cannot_be_copied_is_an_error: called("inprocgrpc.Cloner.Copy") && lastresult("inprocgrpc.Cloner.Copy") != nil ==> result == lastresult("inprocgrpc.Cloner.Copy")
 //@   assert_call[C13] (*internal.CallOptions).SetPeer : in_process_peer: arg0 == lastresult("internal.GetCallOptions") && arg1 == &inprocessPeer
+//@   assert_call[C06,C08] isNil : the_request_is_what_is_checked: arg0 == req
 //@   ensures[C06,C08] nil_request_is_rejected_before_anything_runs: called(isNil) && lastresult(isNil) ==> is_status_err(result) && err_status_code(result) == 13 && !called("go") && !called("internal.ApplyPerRPCCreds")
 //@   assert_call[C13] internal.ApplyPerRPCCreds : always_secure_with_inproc_uri: arg0 == ctx$entry && arg1 == lastresult("internal.GetCallOptions") && arg3 && arg2 == fmt_inproc(slashed(method$entry))
 //@   ensures[C13] credential_failure_runs_nothing: called("internal.ApplyPerRPCCreds") && lastresult("internal.ApplyPerRPCCreds", 1) != nil ==> result == lastresult("internal.ApplyPerRPCCreds", 1) && !called("go")
